@@ -1438,6 +1438,11 @@ func (v *VMValue) ArrayRepeatTimesEx(ctx *Context, times *VMValue) *VMValue {
 			ctx.Error = errors.New("数组重复次数不能为负数")
 			return nil
 		}
+		// 先判断次数再相乘: 次数很大时乘积会溢出成负数或较小的正数，绕过下面的长度检查
+		if times > 512 {
+			ctx.Error = errors.New("不能一次性创建过长的数组")
+			return nil
+		}
 		length := IntType(len(ad.List)) * times
 
 		if length > 512 {
